@@ -129,7 +129,7 @@ def oracle_eq_hash(res, rng):
             optree.unregister_pytree_node(cls, namespace=ns)
 
 
-def oracle_dataclass(res, rng):
+def oracle_dataclass(res, rng, cmds=None, obs=None):
     """dataclasses as custom nodes: integer entries (no entries returned by the flatten function) index the
     INIT fields, string entries name the field; with init=False fields before / between / after the init
     fields, keyword-only fields, and nesting inside and around other containers"""
@@ -161,6 +161,11 @@ def oracle_dataclass(res, rng):
     kw = {} if pet is None else {'path_entry_type': pet}
     optree.register_pytree_node(cls, flat, lambda md, ch: cls(*ch), namespace=ns or world.GLOBAL, **kw)
     case = f'dataclass fields={spec} string_entries={use_names} path_entry_type={getattr(pet, "__name__", None)} namespace={ns!r}'
+    if cmds is not None:
+        # the model's DataclassEntry: the field each integer entry names (cmd 27)
+        probe = [attempt(lambda i=i: optree.DataclassEntry(i, cls, optree.PyTreeKind.CUSTOM).field) for i in range(len(init_names))]
+        cmds.append((27, tuple((int(n[1:]), 1 if init else 0, 0) for n, init in spec)))
+        obs.append((0, tuple(int(r[1][1:]) if r[0] == 0 and isinstance(r[1], str) and r[1][:1] == 'f' else () for r in probe)))
     try:
         leaves = [world.Opaque(70000 + i) for i in range(3 * nf + 3)]
         it = iter(leaves)
@@ -237,10 +242,10 @@ def run(res, tier, seed):
         for i in range(5):
             oracle_eq_hash(res, rng)
         for i in range(300 if tier == 'quick' else 6000):
-            oracle_dataclass(res, rng)
+            oracle_dataclass(res, rng, cmds, obs)
     mod = runner.run_model(cmds)
     for c, a, b in zip(cmds, obs, mod):
-        res.compare(c, a, b, 'cmd_access' if c[0] == 10 else 'cmd_inspect')
+        res.compare(c, a, b, {10: 'cmd_access', 27: 'cmd_dataclass_entry'}.get(c[0], 'cmd_inspect'))
         res.count('cmd_%d' % c[0])
     for c in cmds[:3]:
         res.sample(sx.dump(c)[:500])
